@@ -57,6 +57,7 @@ def run(tier, seed, replay=None):
     for it in range(reps):
         pd = rng.choice([2, 2, 3, 3])
         order = rng.choice([2, 2, 3, 4]) if pd == 2 else rng.choice([2, 2, 3])
+        asym_ = rng.random() < 0.4      # knot vectors that are not symmetric under reversal (conforming: the same along each lattice axis)
         ref = rng.choice([0, 0, 1, 2]) if pd == 2 else rng.choice([0, 0, 1])
         rep_knot = order >= 3 and rng.random() < 0.5
         rat18 = rng.choice([False, False, False, True, 'mixed'])     # rational, or rational and polynomial patches side by side
@@ -64,9 +65,9 @@ def run(tier, seed, replay=None):
         if ring:
             # complexes closing around an axis: a patch adjacent to itself (one interface between its two ends), two
             # patches meeting along two interfaces, closed chains
-            cx = X.build_ring(rng, pd, order=order, refine=ref, repeat_knot=rep_knot, rational=rat18)
+            cx = X.build_ring(rng, pd, order=order, refine=ref, repeat_knot=rep_knot, rational=rat18, asym=asym_)
         else:
-            cx = X.build(rng, pd, order=order, refine=ref, repeat_knot=rep_knot, rational=rat18)
+            cx = X.build(rng, pd, order=order, refine=ref, repeat_knot=rep_knot, rational=rat18, asym=asym_)
         args = describe(cx, order=order, refine=ref)
         args['repeated_knot'] = rep_knot
         nontriv.add(C.case_hash(args))
